@@ -12,32 +12,42 @@ from .lib import METHODS, method, uf, _S
 from .core import SBytes, SBool, SInt, SStr
 
 # bytes.strip()/lstrip()/rstrip() without argument strip ASCII whitespace: SP, HT, LF, CR, VT, FF
-_WS = z3.Union(*[z3.Re(z3.StringVal(chr(c))) for c in (0x20, 0x09, 0x0A, 0x0D, 0x0B, 0x0C)])
-_WS_STAR = z3.Star(_WS)
+WS_CODES = (0x20, 0x09, 0x0A, 0x0D, 0x0B, 0x0C)
+
+
+def is_ws_code(c):
+    return z3.Or(*[c == k for k in WS_CODES])
+
+
+def is_ws_free_ends(t):
+    """z3 condition: t is empty or neither its first nor its last byte is ASCII whitespace (<=> t.strip() == t)"""
+    n = z3.Length(t)
+    return z3.Or(n == 0, z3.And(z3.Not(is_ws_code(z3.StrToCode(z3.SubString(t, 0, 1)))), z3.Not(is_ws_code(z3.StrToCode(z3.SubString(t, n - 1, 1))))))
+
 
 _default_bytes_strip = METHODS[(SBytes, "strip")]
 
 
 @method(SBytes, "strip")
-def _bytes_strip_exact(it, s, *a):
-    """Exact model of bytes.strip() (no argument), enabled by the scenario option `exact_strip=True`:
-    s = a ++ r ++ b with a, b in WS*, and r is empty or neither starts nor ends with a WS byte.  These conditions
-    determine r uniquely, so the model is exact (not merely over-approximate)."""
-    if a or not getattr(it.ex, "exact_strip", False) or s.concrete() is not None:
+def _bytes_strip_lemmas(it, s, *a):
+    """bytes.strip() (no argument) as an uninterpreted function plus *true facts* about it, instantiated at the argument
+    (enabled by the scenario option `strip_lemmas=True`; over-approximate, every assumed fact holds for CPython's bytes.strip):
+      (1) the result is a substring of s and has no whitespace at either end;
+      (2) if s has no whitespace at either end, strip(s) == s;
+      (3) if s starts [ends] with a whitespace byte, strip(s) == strip(s[1:]) [strip(s[:-1])], and (2) for that shorter string."""
+    if a or not getattr(it.ex, "strip_lemmas", False) or s.concrete() is not None:
         return _default_bytes_strip(it, s, *a)
-    r = uf("strip", _S, _S)(s.t)
-    pre = it.fresh("bytes", "strip_l")
-    post = it.fresh("bytes", "strip_r")
-    n = z3.Length(r)
-    it.ex.assume(s.t == z3.Concat(pre.t, r, post.t))
-    it.ex.assume(z3.InRe(pre.t, _WS_STAR))
-    it.ex.assume(z3.InRe(post.t, _WS_STAR))
-    it.ex.assume(z3.Or(n == 0, z3.And(z3.Not(z3.InRe(z3.SubString(r, 0, 1), _WS)), z3.Not(z3.InRe(z3.SubString(r, n - 1, 1), _WS)))))
-    it.ex.note("lib", "bytes.strip (exact: ASCII whitespace SP HT LF CR VT FF)")
+    f = uf("strip", _S, _S)
+    r = f(s.t)
+    n = z3.Length(s.t)
+    it.ex.assume(z3.Contains(s.t, r))
+    it.ex.assume(is_ws_free_ends(r))
+    it.ex.assume(z3.Implies(is_ws_free_ends(s.t), r == s.t))
+    tail = z3.simplify(z3.SubString(s.t, 1, n - 1))
+    init = z3.simplify(z3.SubString(s.t, 0, n - 1))
+    it.ex.assume(z3.Implies(z3.And(n > 0, is_ws_code(z3.StrToCode(z3.SubString(s.t, 0, 1)))), r == f(tail)))
+    it.ex.assume(z3.Implies(is_ws_free_ends(tail), f(tail) == tail))
+    it.ex.assume(z3.Implies(z3.And(n > 0, is_ws_code(z3.StrToCode(z3.SubString(s.t, n - 1, 1)))), r == f(init)))
+    it.ex.assume(z3.Implies(is_ws_free_ends(init), f(init) == init))
+    it.ex.note("lib", "bytes.strip (uninterpreted + instantiated lemmas: ASCII whitespace SP HT LF CR VT FF)")
     return SBytes(r)
-
-
-def is_ws_free_ends(t):
-    """z3 condition: t is empty or neither its first nor its last byte is ASCII whitespace (i.e. t.strip() == t)"""
-    n = z3.Length(t)
-    return z3.Or(n == 0, z3.And(z3.Not(z3.InRe(z3.SubString(t, 0, 1), _WS)), z3.Not(z3.InRe(z3.SubString(t, n - 1, 1), _WS))))
